@@ -31,7 +31,8 @@ VF_MAIN
     if (q >= 1 && q <= 2) VF_ASSERT((a.flags & 3) == SOXR_ROLLOFF_MEDIUM, "LQ/MQ use the medium roll-off class (C01)");
     if (q == 1 && !(in_recipe & SOXR_STEEP_FILTER)) VF_ASSERT(a.passband_end == 1385 / 2048., "LQ pass-band end (C01)");
     VF_ASSERT(a.passband_end > 0 && a.passband_end < 1, "pass-band end below the Nyquist frequency (C01)");
-    VF_ASSERT((a.flags & RESET_ON_CLEAR) == (q < SOXR_LSR0Q? RESET_ON_CLEAR : 0) , "native recipes are reset by soxr_clear (C10)");
+    if (q0 < SOXR_LSR0Q) VF_ASSERT(a.flags & RESET_ON_CLEAR, "native recipes are reset by soxr_clear: clear == fresh (C10)");
+    if (q0 >= SOXR_LSR0Q && q0 <= SOXR_LSR0Q + 4) VF_ASSERT(!(a.flags & RESET_ON_CLEAR), "the five libsamplerate converter types (recipes LSR0Q .. LSR0Q+4) are NOT re-initialised by soxr_clear: after src_reset the next block supplies the ratio, as for a new converter (C19)");
   }
   VF_WITNESS();
 }
